@@ -421,11 +421,10 @@ func constPacketTypes(w *World, r *Report) {
 	// writer: in writeFile, writeNextPacket(buf, setID, G, body) with body derived from writeXPacket
 	if wf := w.Fn("par2.writeFile"); wf != nil {
 		n := 0
-		for _, c := range callInstrs(wf) {
-			if staticCalleeShort(c.Common()) != "par2.writeNextPacket" || len(c.Common().Args) != 4 {
-				continue
-			}
-			ld, ok := c.Common().Args[2].(*ssa.UnOp)
+		ems := packetEmissions(w, wf)
+		for _, em := range ems {
+			c := em.c
+			ld, ok := em.typ.(*ssa.UnOp)
 			if !ok {
 				continue // unknown packets are written back with their own type
 			}
@@ -436,7 +435,7 @@ func constPacketTypes(w *World, r *Report) {
 			role := globalRole[g]
 			n++
 			bodyRole := ""
-			backSlice(c.Common().Args[3], func(v ssa.Value) bool {
+			backSlice(em.body, func(v ssa.Value) bool {
 				if cl, ok := v.(*ssa.Call); ok {
 					nm := staticCalleeShort(&cl.Call)
 					if strings.HasPrefix(nm, "par2.write") && strings.HasSuffix(nm, "Packet") && nm != "par2.writeNextPacket" {
@@ -466,12 +465,9 @@ func constPacketTypes(w *World, r *Report) {
 			}
 			nret++
 			found := false
-			for _, c := range callInstrs(wf) {
-				if staticCalleeShort(c.Common()) != "par2.writeNextPacket" || len(c.Common().Args) != 4 {
-					continue
-				}
-				if ld, ok := c.Common().Args[2].(*ssa.UnOp); ok {
-					if g, ok := ld.X.(*ssa.Global); ok && globalRole[g] == "Creator" && instrDominates(c, ret) {
+			for _, em := range ems {
+				if ld, ok := em.typ.(*ssa.UnOp); ok {
+					if g, ok := ld.X.(*ssa.Global); ok && globalRole[g] == "Creator" && instrDominates(em.c, ret) {
 						found = true
 					}
 				}
@@ -1159,7 +1155,27 @@ func constFreshVolumeMap(w *World, r *Report) {
 				continue
 			}
 			n++
-			mk, isMk := st.Val.(*ssa.MakeMap)
+			var mk ssa.Instruction
+			if m, ok := st.Val.(*ssa.MakeMap); ok {
+				mk = m
+			} else if c, ok := st.Val.(*ssa.Call); ok {
+				// a private helper every return of which hands out a map it has just made
+				if g := c.Call.StaticCallee(); g != nil && inRegion(fn, g) && len(g.Blocks) > 0 {
+					fresh, nret := true, 0
+					for _, gb := range g.Blocks {
+						if ret, ok := gb.Instrs[len(gb.Instrs)-1].(*ssa.Return); ok && len(ret.Results) == 1 {
+							nret++
+							if _, isMake := ret.Results[0].(*ssa.MakeMap); !isMake {
+								fresh = false
+							}
+						}
+					}
+					if fresh && nret > 0 {
+						mk = c
+					}
+				}
+			}
+			isMk := mk != nil
 			// loop: a header that dominates the store and is reachable from it
 			inLoop := false
 			if isMk {
@@ -1179,4 +1195,69 @@ func constFreshVolumeMap(w *World, r *Report) {
 	if n == 0 {
 		r.bad("CONST", "par2:fresh-volume-map", w.pos(fn.Pos()), "no assignment of a recovery-packet map per volume found")
 	}
+}
+
+// A packetEmission is a place in writeFile where a packet goes out: a call of writeNextPacket, or of a
+// private wrapper that passes its own type and body parameters on to writeNextPacket on every path.
+type packetEmission struct {
+	c         ssa.CallInstruction
+	typ, body ssa.Value
+}
+
+func packetEmissions(w *World, wf *ssa.Function) []packetEmission {
+	var out []packetEmission
+	paramIdx := func(g *ssa.Function, v ssa.Value) int {
+		var found = -1
+		backSlice(v, func(x ssa.Value) bool {
+			if p, ok := x.(*ssa.Parameter); ok && p.Parent() == g {
+				for i, q := range g.Params {
+					if q == p && found < 0 {
+						found = i
+					}
+				}
+				return false
+			}
+			return true
+		})
+		return found
+	}
+	for _, c := range callInstrs(wf) {
+		callee := c.Common().StaticCallee()
+		if callee == nil {
+			continue
+		}
+		if shortName(callee) == "par2.writeNextPacket" && len(c.Common().Args) == 4 {
+			out = append(out, packetEmission{c, c.Common().Args[2], c.Common().Args[3]})
+			continue
+		}
+		if callee == wf || !inRegion(wf, callee) {
+			continue
+		}
+		// wrapper: exactly one writeNextPacket call, which dominates every success return
+		var inner ssa.CallInstruction
+		k := 0
+		for _, ic := range callInstrs(callee) {
+			if staticCalleeShort(ic.Common()) == "par2.writeNextPacket" && len(ic.Common().Args) == 4 {
+				inner = ic
+				k++
+			}
+		}
+		if k != 1 {
+			continue
+		}
+		ti, bi := -1, -1
+		if p, ok := stripAllConv(inner.Common().Args[2]).(*ssa.Parameter); ok {
+			for i, q := range callee.Params {
+				if q == p {
+					ti = i
+				}
+			}
+		}
+		bi = paramIdx(callee, inner.Common().Args[3])
+		if ti < 0 || bi < 0 || ti >= len(c.Common().Args) || bi >= len(c.Common().Args) {
+			continue
+		}
+		out = append(out, packetEmission{c, c.Common().Args[ti], c.Common().Args[bi]})
+	}
+	return out
 }
